@@ -29,3 +29,18 @@ MANIFEST = {
     "note": 'Atomicity: one frame per step; a transaction closes when its response is routed (probe-fenced). Quiet link (no auto-linktest, long T3/T6/T7): timer-driven endings and local data transactions are outside this model (C06/C19). Two readings adopted and listed in the evidence: transaction identity by system bytes; an S9F1 queued behind a pipelined Deselect may be dropped by the send gate (C07).',
     "technique": 'Rocq/Coq proof (refinement of a code-shaped fold to a table spec, induction over frame lists) + translator bridge + exact extracted-model differential on a real connection + independent table oracle',
 }
+
+
+def custom(run, tier):
+    """Floor on the held-commit scenarios: a run the rig could not set up (the transport never
+    reached TCPUp / the peer never saw the active side's Select.req within the ceiling) is discarded
+    and counted, never an oracle failure; but at least 80% of them must have been established, so
+    that a change which breaks connecting is still reported."""
+    est = run.hist.get("held:established", 0)
+    dis = run.hist.get("held:discarded", 0)
+    total = est + dis
+    run.coverage["held_commit_runs"] = {"established": est, "discarded": dis,
+                                        "discard_reasons": {k: v for k, v in run.hist.items() if k.startswith("held:discarded: ")}}
+    run.oblige("held-commit scenarios established: %d of %d (floor 80%%)" % (est, total),
+               total > 0 and est * 5 >= total * 4,
+               "established=%d discarded=%d %s" % (est, dis, {k: v for k, v in run.hist.items() if k.startswith("held:")}))
